@@ -31,10 +31,12 @@ PROPS = {
                 "SudoAddressChange = the four action groups) of 6 accounts x 3 assets and a `StateDelta` as chain state: 160 (thorough 1500) "
                 "sessions of 25-90 (thorough 30-140) generated steps, parked limit 0/1/2-4/5-9/16/20/91/200, result-cache size 1-3/100/10000; "
                 "ops: insert (next ready nonce, gapped, exact/stale chain nonce, replacement of a tracked nonce, duplicate of a tracked id, "
-                "flooding one account's parked queue; costs from the fee table or around the balance; shown balances = chain or perturbed), "
+                "re-submission of a removed id, flooding one account's parked queue up to its limit and filling the gap below it; costs from "
+                "the fee table or around the balance; shown balances = chain or perturbed), "
                 "remove_tx_invalid (tracked / untracked / same-nonce-other-id), block inclusion of a builder-queue prefix with execution "
                 "results + nonce advance + balance change, failed execution, balance and nonce moves without the mempool, fee-table and "
-                "allowed-fee-asset changes with re-costing maintenance, plain maintenance, time jumps around TX_TTL and the result retention, "
+                "allowed-fee-asset changes with re-costing maintenance, plain maintenance, time jumps incl. exactly at / 1 ms past TX_TTL of an "
+                "accepted transaction and the result retention, "
                 "remove_from_removal_cache. After EVERY op the complete private state (both containers with probed costs, tracked set, "
                 "removal cache, result cache) and the answers of builder_queue / pending_nonce / transaction_status(every id ever created) / "
                 "len are dumped and diffed with the Lean model (run_maintenance iterates a HashSet: the model result must match for SOME "
